@@ -66,6 +66,7 @@ def run(ctx, rep):
     rep.run(RH2.rule_wide_integers_read_exactly, ctx, rep, "K14")
     rep.run(RH.rule_strings_by_evaluation, ctx, rep, "K15")
     rep.run(RH.rule_scalars_by_evaluation, ctx, rep, "K16")
+    rep.run(RH2.rule_no_use_after_destroy, ctx, rep, "K17")
 
 
 def run_thorough(ctx, rep):
